@@ -21,10 +21,14 @@ type epCase struct {
 	Rev     int
 	Pkts    []string // pong | ping | message | close | upgrade | noop | probe | garbage | empty
 	Early   bool     // websocket: the first packet travels with the opening request (already in the read buffer at the hijack)
+	// HoldOpen: instead of the open packet's hand-off, the handshake goroutine is held at the yield point
+	// socket.onOpen.open: the session has just been declared open (its open packet is queued), the server has not
+	// registered it nor announced it to the application; the reader goroutine takes the client's packets
+	HoldOpen bool
 }
 
 func (c epCase) String() string {
-	return fmt.Sprintf("{%s rev%d early-packets=%v with-the-request=%v}", c.Carrier, c.Rev, c.Pkts, c.Early)
+	return fmt.Sprintf("{%s rev%d early-packets=%v with-the-request=%v held-right-after-open=%v}", c.Carrier, c.Rev, c.Pkts, c.Early, c.HoldOpen)
 }
 
 func epPkt(k string) (Pkt, []byte) {
@@ -66,7 +70,17 @@ func runEP(c epCase) (fail string, stats map[string]bool) {
 	aw.canary, aw.canarySR = cs.pc, w.Get(cs.pc.Sid)
 	// the application's listener of the server's flush event takes its time for the next hand-off (the open packet)
 	park := make(chan struct{})
-	armed, parked := true, false
+	armed, parked := !c.HoldOpen, false
+	var g *Gates
+	var gp GatePoint
+	if c.HoldOpen {
+		g = InstallGates(nil)
+		defer g.Uninstall()
+		gp = GatePoint{"socket.onOpen.open", g.Count("socket.onOpen.open")}
+		g.mu.Lock()
+		g.plan[gp] = true
+		g.mu.Unlock()
+	}
 	w.Srv.On("flush", func(...any) {
 		if armed {
 			armed = false
@@ -108,6 +122,13 @@ func runEP(c epCase) (fail string, stats map[string]bool) {
 	if parked {
 		stats["packets-while-the-handshake-hands-over-the-open-packet"] = true
 	}
+	if g != nil {
+		for _, p := range g.Parked() {
+			if p == gp {
+				stats["packets-to-an-open-session-the-server-has-not-registered-yet"] = true
+			}
+		}
+	}
 	for i, k := range c.Pkts {
 		if c.Carrier == "websocket" && c.Early && i == 0 {
 			continue
@@ -122,6 +143,12 @@ func runEP(c epCase) (fail string, stats map[string]bool) {
 	}
 	armed = false
 	close(park)
+	if g != nil {
+		g.mu.Lock()
+		delete(g.plan, gp)
+		g.mu.Unlock()
+		g.Release(gp)
+	}
 	Settle()
 	// the session is either usable or properly closed; nobody else was disturbed
 	var sr *SessRec
@@ -175,7 +202,7 @@ func runEP(c epCase) (fail string, stats map[string]bool) {
 
 func TestC09EarlyPackets(t *testing.T) {
 	col := NewCollector("TestC09EarlyPackets",
-		"rapid: a websocket / webtransport handshake (revision 3/4) whose hand-off of the open packet is held inside an application listener of the server's flush event, while the client, which need not wait for the open packet, sends 1-3 packets (pong, ping, probe ping, message, close, upgrade, noop, an empty frame, undecodable bytes; on websocket the first one may travel with the opening request); next to it a canary session; oracle: the process survives (a panic in a reader goroutine kills the test process and is attributed by the driver from the journal), the session is usable afterwards or closed exactly once, the canary is undisturbed, nothing is left behind when the client has gone. every case is non-trivial").Use(t)
+		"rapid: a websocket / webtransport handshake (revision 3/4) whose hand-off of the open packet is held inside an application listener of the server's flush event (the session still being opened), or whose handshake goroutine is held at the yield point socket.onOpen.open (the session open, not yet registered nor announced), while the client, which need not wait for the open packet, sends 1-3 packets (pong, ping, probe ping, message, close, upgrade, noop, an empty frame, undecodable bytes; on websocket the first one may travel with the opening request); next to it a canary session; oracle: the process survives (a panic in a reader goroutine kills the test process and is attributed by the driver from the journal), the session is usable afterwards or closed exactly once, the canary is undisturbed, nothing is left behind when the client has gone. every case is non-trivial").Use(t)
 	rapid.Check(t, func(rt *rapid.T) {
 		c := epCase{Carrier: rapid.SampledFrom([]string{"websocket", "websocket", "webtransport"}).Draw(rt, "carrier"), Rev: 4}
 		if c.Carrier == "websocket" && rapid.IntRange(0, 2).Draw(rt, "rev3") == 0 {
@@ -183,6 +210,7 @@ func TestC09EarlyPackets(t *testing.T) {
 		}
 		c.Pkts = rapid.SliceOfN(rapid.SampledFrom([]string{"pong", "pong", "ping", "ping", "probe", "message", "close", "upgrade", "noop", "garbage", "empty"}), 1, 3).Draw(rt, "pkts")
 		c.Early = c.Carrier == "websocket" && rapid.IntRange(0, 2).Draw(rt, "early") == 0
+		c.HoldOpen = !c.Early && rapid.Bool().Draw(rt, "heldRightAfterOpen")
 		journal("C09 early packets %v", c)
 		var fail string
 		var stats map[string]bool
@@ -201,5 +229,5 @@ func TestC09EarlyPackets(t *testing.T) {
 			rt.Fatalf("%v: goroutines left after the client had gone: %s", c, clipStr(res.Leak, 3000))
 		}
 	})
-	col.RequireClasses(t, "packets-while-the-handshake-hands-over-the-open-packet", "early.pong", "early.ping", "early.message", "first-packet-with-the-opening-request", "session-usable-afterwards", "session-closed")
+	col.RequireClasses(t, "packets-to-an-open-session-the-server-has-not-registered-yet", "packets-while-the-handshake-hands-over-the-open-packet", "early.pong", "early.ping", "early.message", "first-packet-with-the-opening-request", "session-usable-afterwards", "session-closed")
 }
